@@ -65,6 +65,7 @@ RPow(a, b) == IF IsBad(a) \/ IsBad(b) THEN Bad
               ELSE IF b[2] = 1 THEN RPowInt(a, b[1])
               ELSE IF b[2] = 2 /\ HasRSqrt(a) THEN RPowInt(RSqrt(a), b[1])
               ELSE IF b[2] = 4 /\ HasRSqrt(a) /\ HasRSqrt(RSqrt(a)) THEN RPowInt(RSqrt(RSqrt(a)), b[1])
+              ELSE IF b[2] = 8 /\ HasRSqrt(a) /\ HasRSqrt(RSqrt(a)) /\ HasRSqrt(RSqrt(RSqrt(a))) THEN RPowInt(RSqrt(RSqrt(RSqrt(a))), b[1])
               ELSE Bad
 
 \* ------------------------------------------------------------------ dual numbers
